@@ -1640,6 +1640,17 @@ def falsify_jwk_import(m, out, eo=None, _orc=[None]):
             if orc._ask("eq %d %d" % (kid, ref)) != "1":
                 return "imported %s key has different public components than the key the JWK encodes" % m["key"]
         alg = key.admissible_algs()[0]
+        if m["private"] and key.kind in ("rsa", "rsapss"):
+            # every number of the private key, not only what a signature exercises (OpenSSL silently falls back
+            # from a wrong CRT set to the plain exponentiation, so a signature does not show transposed members)
+            nums = K.rsa_private_numbers(pem)
+            want = (key.n, key.e, key.d, key.p, key.q, key.dp, key.dq, key.qi)
+            if nums is None:
+                return "PEM of the imported private %s key is not a PKCS#8/PKCS#1 RSA private key" % m["key"]
+            if nums != want:
+                names = ("n", "e", "d", "p", "q", "dp", "dq", "qi")
+                diff = [nm for nm, a_, b_ in zip(names, nums, want) if a_ != b_]
+                return "imported RSA private key differs from the JWK in %s (JWK members reached the wrong numbers of the key)" % ",".join(diff)
         if m["private"]:
             sig = orc.sign(kid, alg, b"probe")
             pub = orc.add_key(key.pem(False))
